@@ -28,33 +28,50 @@ def generate(G):
              unwind=max(G.numel(a), G.numel(b)) + 2, tier=tier, kind="refusal",
              skeleton={"op": op, "a": a, "b": b})
 
+    # ---- the shape rule with symbolic dimensions (hook), every rank pair <= 4 x 4
+    for ra in range(1, 5):
+        for rb in range(1, 5):
+            tier = "quick" if (ra, rb) in ((1, 1), (2, 3), (4, 2), (3, 3)) else "thorough"
+            G.ob("c04_rule_ok_r%d_r%d" % (ra, rb), "C04", "shape_rule", "c04::shape_rule(s, %d, %d, true)" % (ra, rb), unwind=7, tier=tier,
+                 skeleton={"ranks": [ra, rb], "extents": "symbolic in 1..=65536", "side": "compatible => pairwise maximum"},
+                 domains="dimensions symbolic")
+            G.ob("c04_rule_bad_r%d_r%d" % (ra, rb), "C04", "shape_rule", "c04::shape_rule(s, %d, %d, false)" % (ra, rb), unwind=7,
+                 tier=tier, kind="refusal", skeleton={"ranks": [ra, rb], "extents": "symbolic in 1..=65536", "side": "incompatible => refused"},
+                 domains="dimensions symbolic")
+
     # ---- quick core: one pair per structural class for add, a handful for the others
     core_add = [
-        ([3], [3]), ([2, 3], [2, 3]),                      # equal
+        ([2, 3], [2, 3]),                                  # equal
         ([2, 3], [3]), ([3], [2, 3]),                      # lower rank, either side
-        ([2, 3], [1]), ([1], [2, 2]),                      # all-unit
+        ([1], [2, 2]),                                     # all-unit
         ([2, 3], [1, 3]), ([1, 3], [2, 3]),                # leading unit, same rank
-        ([2, 3], [2, 1]), ([2, 1], [2, 3]),                # trailing unit
+        ([2, 1], [2, 3]),                                  # trailing unit
         ([2, 1], [1, 3]),                                  # both sides broadcast
         ([2, 2, 2], [2, 2]), ([2, 2], [2, 2, 2]),          # rank-2 against rank-3
-        ([2, 2, 2], [2]), ([2, 2, 2], [1, 2]),
-        ([2, 1, 2], [2, 2, 2]), ([2, 2, 2], [2, 1, 2]),    # interior unit
+        ([2, 2, 2], [1, 2]),
+        ([2, 1, 2], [2, 2, 2]),                            # interior unit
         ([1, 2, 2], [2, 2, 2]), ([2, 2, 2], [1, 2, 2]),    # leading unit rank 3
         ([2, 1, 2], [1, 2, 1]),                            # alternating
-        ([3, 2], [3, 1]), ([3, 1], [1, 2]),
         ([2, 1, 2, 1], [2, 1, 2]), ([2, 2, 1, 2], [2, 1]),  # rank 4
     ]
     for a, b in core_add:
         values("Add", a, b, "quick")
-    core_other = [([2, 3], [3]), ([2, 2, 2], [2, 2]), ([2, 1], [1, 3]), ([1, 2, 2], [2, 1, 2]), ([3], [2, 3])]
+    for a, b in [([3], [3]), ([2, 3], [1]), ([2, 3], [2, 1]), ([2, 2, 2], [2]), ([2, 2, 2], [2, 1, 2]), ([3, 2], [3, 1]), ([3, 1], [1, 2])]:
+        values("Add", a, b, "thorough")
+    core_other = {"Sub": [([2, 2, 2], [2, 2])], "Mul": [([2, 3], [3]), ([1, 2, 2], [2, 1, 2])],
+                  "Div": [([2, 1], [1, 3]), ([2, 2, 2], [2, 2])], "Axpy": [([3], [2, 3]), ([2, 2, 2], [2, 2])]}
     for op in ["Sub", "Mul", "Div", "Axpy"]:
-        for a, b in core_other:
+        for a, b in core_other[op]:
             values(op, a, b, "quick")
+        for a, b in [([2, 3], [3]), ([2, 2, 2], [2, 2]), ([2, 1], [1, 3]), ([1, 2, 2], [2, 1, 2]), ([3], [2, 3])]:
+            values(op, a, b, "thorough")
 
-    core_ref = [([2], [3]), ([2, 3], [2]), ([2, 3], [3, 2]), ([3, 2], [2, 2]), ([2, 2, 3], [3, 3]),
-                ([2, 2, 2], [3, 1, 2]), ([3], [2, 3, 2]), ([2, 3], [2, 2, 2]), ([1, 2], [3]), ([2, 1, 3], [2, 2, 2])]
+    core_ref = [([2], [3]), ([2, 3], [2]), ([2, 3], [3, 2]), ([2, 2, 3], [3, 3]),
+                ([2, 2, 2], [3, 1, 2]), ([2, 3], [2, 2, 2]), ([2, 1, 3], [2, 2, 2])]
     for a, b in core_ref:
         refusal("Add", a, b, "quick")
+    for a, b in [([3, 2], [2, 2]), ([3], [2, 3, 2]), ([1, 2], [3])]:
+        refusal("Add", a, b, "thorough")
     refusal("Mul", [2], [3], "quick")
     refusal("Div", [2, 3], [2], "quick")
     refusal("Sub", [3, 2], [2, 2], "quick")
